@@ -4,7 +4,8 @@
 
     A case carries the zone twice: as the bytes the implementation reads (ignored here) and as the
     structured zone model [ZM] the generator obtained independently of chrono:
-        ZM    = (first offset, ((instant, offset from then on), ...), RULE)
+        ZM    = (first offset, ((instant, offset from then on), ...), RULE, TAG)
+        TAG   = Adler-32 of the printed zone source, a blank and the printed ZM without TAG
         RULE  = none | some((offset)) | some((std, dst, DAY, start time, DAY, end time))
         DAY   = (0, n) zero-based day n | (1, n) Julian day Jn | (2, m, w, d) Mm.w.d
     Instants and wall-clock readings are whole seconds; results are offsets in seconds.
@@ -65,9 +66,23 @@ Fixpoint dec_trans (l : list val) : option (list (Z * Z)) :=
       match dec_trans r with Some r' => if small o then Some ((t, o) :: r') else None | None => None end
   | _ => None
   end.
-Definition dec_zone (v : val) : option szone :=
+(* The case carries the zone twice (bytes for the implementation, ZM for this judge); the two are
+   bound together by a checksum (Adler-32 over the printed source and the printed ZM) so that a
+   case line edited on one side only -- e.g. by the shrinker -- is outside the domain instead of
+   being judged against the wrong zone. *)
+Fixpoint adler (bs : bytes) (a b : Z) : Z :=
+  match bs with
+  | [] => b * 65536 + a
+  | x :: r =>
+      let s := a + x in let a' := if s <? 65521 then s else s - 65521 in
+      let u := b + a' in let b' := if u <? 65521 then u else u - 65521 in
+      adler r a' b'
+  end.
+Definition case_tag (src zm3 : val) : Z := adler (print_val src ++ 32 :: print_val zm3) 1 0.
+Definition dec_zone (src v : val) : option szone :=
   match v with
-  | VTup [VInt first; VTup trs; rule] =>
+  | VTup [VInt first; VTup trs; rule; VInt tag] =>
+      if negb (tag =? case_tag src (VTup [VInt first; VTup trs; rule])) then None else
       match dec_trans trs, dec_rule rule with
       | Some tr, Some r => if small first && increasing tr then Some (mk_szone first tr r) else None
       | _, _ => None
@@ -82,18 +97,11 @@ Definition ts_ok (x : Z) : bool := (TS_MIN + 259200 <=? x) && (x <=? TS_MAX - 25
 (* what a FixedOffset can carry *)
 Definition fo_ok (o : Z) : bool := (-86400 <? o) && (o <? 86400).
 
-Definition year_start (y : Z) : Z := (dn_of_ymd y 1 1 - EPOCH_DN) * 86400.
-(* the property's premise for year y: both rule transitions, read on either clock, lie more than
-   one day inside the calendar year; and they are two different instants *)
-Definition premise_year (a : srule) (y : Z) : bool :=
-  let lo := year_start y + 86400 in
-  let hi := year_start (y + 1) - 86400 in
-  let s := rule_start_utc a y in
-  let e := rule_end_utc a y in
-  forallb (fun l => (lo <? l) && (l <? hi)) [s + r_std a; s + r_dst a; e + r_std a; e + r_dst a]
-  && negb (s =? e).
+(* [year_start], [premise_year] are in Spec/Zone.v; the oracle looks two years either way *)
 Definition premise_at (a : srule) (x : Z) : bool :=
-  let y := utc_year x in premise_year a (y - 1) && premise_year a y && premise_year a (y + 1).
+  let y := utc_year x in
+  premise_year a (y - 2) && premise_year a (y - 1) && premise_year a y && premise_year a (y + 1)
+  && premise_year a (y + 2).
 (* the rule can matter for x only from three days before the last table transition on *)
 Definition rule_dom (z : szone) (x : Z) : bool :=
   match z_rule z with
@@ -251,8 +259,8 @@ Definition batch (j : Z -> val -> ev) (xs : val) (out : val) : verdict :=
 
 Definition judge (op : bytes) (args : list val) (out : val) : verdict :=
   match args with
-  | [_; zm; xs] =>
-      match dec_zone zm with
+  | [src; zm; xs] =>
+      match dec_zone src zm with
       | None => JSkip
       | Some z =>
           let offs := zone_offsets z in
@@ -272,8 +280,8 @@ Definition judge (op : bytes) (args : list val) (out : val) : verdict :=
           else if op_is op "lz.urt" then batch (unspaced z j_rt wall_of_t) xs out
           else JSkip
       end
-  | [_; zm; VInt dir; xs] =>
-      match dec_zone zm with
+  | [src; zm; VInt dir; xs] =>
+      match dec_zone src zm with
       | None => JSkip
       | Some z =>
           if op_is op "lz.env" then
